@@ -80,7 +80,10 @@ type Found struct {
 	Count     int
 	Confirmed bool // reproduced at seam B
 	ReproNote string
+	Alts      [][]string // further paths that showed the same signature (tried in turn if Path does not reproduce)
 }
+
+const maxAlts = 600
 
 type Result struct {
 	Scenario       string
@@ -236,8 +239,15 @@ func Explore(sc Scenario, opt Options) *Result {
 			for sig, f := range o.found {
 				if g, ok := res.Found[sig]; ok {
 					g.Count += f.Count
+					g.Alts = append(g.Alts, f.Alts...)
+					if len(g.Alts) > 16*maxAlts {
+						g.Alts = g.Alts[:16*maxAlts]
+					}
 					if len(f.Path) < len(g.Path) || (len(f.Path) == len(g.Path) && strings.Join(f.Path, "|") < strings.Join(g.Path, "|")) {
+						g.Alts = append(g.Alts, g.Path)
 						g.Path, g.Viol = f.Path, f.Viol
+					} else {
+						g.Alts = append(g.Alts, f.Path)
 					}
 				} else {
 					res.Found[sig] = f
@@ -325,6 +335,9 @@ func expandNode(sc Scenario, ws *wstate, n *node, idx int32, out *workerOut) {
 				out.found[v.Sig] = &Found{Viol: v, Path: append(append(append([]string{}, path...), ev), v.ExtraPath...), Count: 1}
 			} else {
 				f.Count++
+				if len(f.Alts) < maxAlts {
+					f.Alts = append(f.Alts, append(append(append([]string{}, path...), ev), v.ExtraPath...))
+				}
 			}
 		}
 		out.cands = append(out.cands, cand{key: key, parent: idx, evIdx: int32(ei), ev: ev, okChg: st.Outcome == "ok" && key != pkey})
